@@ -121,7 +121,8 @@ class Run:
     def result(self):
         w = self.w
         r = {'variant': self.c['variant'], 'sched': self.tokens, 'trace': self.trace,
-             'outcomes': w.outcome_list(), 'oracle': list(w.oracle), 'facts': facts(w)}
+             'outcomes': w.outcome_list(), 'oracle': list(w.oracle), 'facts': facts(w),
+             'unhandled': list(w.client.unhandled), 'end_up': w.conn_up()}
         r.update(model_schedule(w))
         w.close()
         return r
@@ -200,7 +201,7 @@ def model_schedule(w):
 
 def facts(w):
     return [{k: o[k] for k in ('op', 'kind', 'value', 'completed', 'returned', 'ended', 'waiting_on', 'avail_start',
-                               'flag_start')} for o in w.outcomes]
+                               'flag_start', 'after_reconnect')} for o in w.outcomes]
 
 
 def aligned(ans, r):
@@ -328,7 +329,16 @@ def judge_batch(acc, results, family):
         for o in r['outcomes']:
             acc.count('outcome.' + ('ret' if isinstance(o, dict) and 'ret' in o else
                                     o if isinstance(o, str) else o['exc']))
+        for ev in r.get('unhandled', ()):
+            acc.count('connection_or_arrival_event_without_registered_handler.' + ev)
+        if r.get('end_up'):
+            acc.count('end_with_connection_up.consumer_' + (r['trace'][-1][0] if r['trace'] else 'idle'))
         for f in r['facts']:
+            if f.get('after_reconnect'):
+                # calls that ended after a loss of the transport followed by a completed reconnection
+                acc.count('after_reconnection.%s.%s.%s' % (
+                    r['variant'], 'receive' if f['op'] in W_.RECV_OPS else 'emit' if f['op'] == 'Se' else 'call',
+                    'returned' if f['kind'] == 'ret' else f['value']))
             if f['op'] in W_.RECV_OPS:
                 # receive(timeout) by timeout value x what was available when the call was made x flag x outcome
                 acc.count('recv.%s timeout=%r.%s.%s.%s' % (
@@ -383,7 +393,7 @@ def run_tokens(variant, sched, sample_fail=None):
         w.do(t)
         trace.append(w.obs())
     r = {'variant': variant, 'sched': list(sched), 'trace': trace, 'outcomes': w.outcome_list(),
-         'oracle': list(w.oracle), 'facts': facts(w)}
+         'oracle': list(w.oracle), 'facts': facts(w), 'unhandled': list(w.client.unhandled), 'end_up': w.conn_up()}
     r.update(model_schedule(w))
     w.close()
     return r
